@@ -58,13 +58,29 @@ def run_impl(sc):
                         type(StateMachine)("P", (StateMachine,), pattrs)
                 except Exception:  # noqa: BLE001 - whether the other class is valid does not matter here
                     pass
+            evobjs = {}
+            if sc.get("events_first"):
+                # every event is an `Event()` object without an id, written in the class body BEFORE the states;
+                # the transitions name it with event=<that object>
+                from statemachine import Event
+                evobjs = {j: Event() for j, tr in enumerate(sc["trans"]) if tr[3]}
+                attrs = dict([(f"e{j}", ev) for j, ev in evobjs.items()] + list(attrs.items()))
             for j, (s, t, internal, hasev) in enumerate(sc["trans"]):
+                if j in evobjs:
+                    states[s].to(states[t], internal=bool(internal), event=evobjs[j])
+                    continue
                 tl = states[s].to(states[t], internal=bool(internal))
                 if hasev:
                     attrs[f"e{j}"] = tl
             for k, (t, internal) in enumerate(sc["any"]):
                 attrs[f"a{k}"] = shared_any[k] if k in shared_any else states[t].from_.any(internal=bool(internal))
-            type(StateMachine)("M", (StateMachine,), attrs, strict_states=bool(sc["strict"]))
+            if sc.get("strict_parent") and not sc["strict"]:
+                # the class inherits from an abstract machine class that was declared strict; it is itself
+                # declared without the keyword, i.e. not strict
+                parent = type(StateMachine)("StrictParent", (StateMachine,), {}, strict_states=True)
+                type(StateMachine)("M", (parent,), attrs)
+            else:
+                type(StateMachine)("M", (StateMachine,), attrs, strict_states=bool(sc["strict"]))
         except InvalidDefinition:
             return 2
         except Exception:  # noqa: BLE001
@@ -128,6 +144,10 @@ def render_source(sc):
         lines.append(f"    e{j} = {call}" if hasev else f"    {call}")
     for k, (t, internal) in enumerate(sc["any"]):
         lines.append(f"    a{k} = s{t}.from_.any(internal={bool(internal)})")
+    if sc.get("strict_parent") and not sc["strict"]:
+        lines.append("# M inherits from an abstract class declared with strict_states=True and is itself declared without the keyword")
+    if sc.get("events_first"):
+        lines.append("# the events are `eJ = Event()` attributes written before the states; the transitions use event=eJ")
     if sc.get("dup_names"):
         lines.append(f"# states {sc['dup_names']} are declared with the same display name: State('Step', ...)")
     if sc.get("shared_any"):
@@ -277,6 +297,10 @@ def generate(rng, tier):
                 d["via_enum"] = True
             elif rng.random() < 0.3 and len(d["states"]) >= 2:
                 d["dup_names"] = rng.sample(range(len(d["states"])), rng.randint(2, len(d["states"])))   # states sharing a display name
+            if rng.random() < 0.3:
+                d["strict_parent"] = True
+            if rng.random() < 0.25 and not d.get("via_enum"):
+                d["events_first"] = True
             if d["any"] and not d.get("via_enum") and all(tr[0] != t_ for tr in d["trans"] for t_, _i in d["any"]) and rng.random() < 0.7:
                 d["shared_any"] = True
             if rng.random() < 0.15:
